@@ -231,3 +231,35 @@ theorem redact_verify_issued (rt : Rt) (mk : Nat → Option String → J → Str
     exact ⟨pe, hpe, by rw [(hentry pe (hsub pe hpe)).2.1]; exact e⟩
 
 end Impl
+
+namespace Impl
+
+/-- **`Holder::presentation` and `Holder::build` in the chain.**  If the unverified reading of
+the JWT's claims segment (`decode_claims_no_verification`) yields the payload the JWT library
+returns on verification, then `Holder::presentation` of the issued token succeeds with the
+same path list `ps` as `Holder::verify`, and `Holder::build` after `redact(R)` emits exactly
+`jwt~kept…~` for `kept = keptDisclosures ps R` (unbound token: no key-binding JWT). -/
+theorem holder_presentation_build (rt : Rt) (jwt : String) (strs : List String) (header payload c : J)
+    (ps : List PathEntry) (R : List String) (a b sig : List Char) (nonce : String) (now : Int)
+    (hj : '~' ∉ jwt.toList) (hs : ∀ s ∈ strs, '~' ∉ s.toList)
+    (hseg : splitOn '.' jwt.toList = [a, b, sig])
+    (hclaims : rt.decodeClaims (strOf b) = some payload)
+    (halg : (jidx payload "_sd_alg").asStr = some "sha-256")
+    (hcnf : jget? payload "cnf" = none)
+    (hr : restoreAll (rt.env "sha-256") payload strs = .ok (c, ps)) :
+    Holder.presentation rt (assemble jwt strs) = .ok { sdJwt := jwt, paths := ps } ∧
+    Holder.build rt { sdJwt := jwt, paths := ps } R none nonce now =
+      .ok (assemble jwt (keptDisclosures ps R), none) := by
+  have hparts := sdJwtParts_assemble jwt strs hj hs
+  have hstrs : (strs.map (·.toList)).map strOf = strs := by
+    simp [List.map_map, Function.comp_def, strOf, String.ofList_toList]
+  have hpart : getJwtPart jwt.toList .claims = .ok b := by simp [getJwtPart, hseg]
+  have hclaims' : rt.decodeClaims (String.ofList b) = some payload := hclaims
+  have hstrs' : List.map (strOf ∘ fun x : String => x.toList) strs = strs := by
+    rw [← List.map_map]; exact hstrs
+  constructor
+  · simp [Holder.presentation, hparts, hpart, hclaims', halg, parseHashAlg, hstrs', hr, strOf,
+      String.ofList_toList]
+  · simp [Holder.build, hpart, hclaims', hcnf, strOf]
+
+end Impl
